@@ -1,5 +1,5 @@
 From Coq Require Import List NArith ZArith Bool.
-From LTV.C11 Require Import Model ProofsParams Proofs Proofs2 ProofsInv ProofsInv2 ProofsInv3 ProofsInv4 ProofsAlloc ProofsGlob ProofsLim.
+From LTV.C11 Require Import Model ProofsParams Proofs Proofs2 ProofsInv ProofsInv2 ProofsInv3 ProofsInv4 ProofsAlloc ProofsGlob ProofsLim ProofsLim2 ProofsLim3 ProofsLim4.
 Import ListNotations.
 Local Open Scope Z_scope.
 
@@ -76,13 +76,32 @@ Theorem cycle_no_throw_alloc_partial : forall (heur : nat) (choke : bool) s0 s1 
 Proof. exact ProofsAlloc.allocate_slots_no_fault_real. Qed.
 Print Assumptions cycle_no_throw_alloc_partial.
 
-(* locality of the connection slot: receive_{upload,download}_choke on connection c changes only
-   c's torrent entry and the queue of c's group (used for limits of cycle; limits_cycle itself is
-   not finished: limits_partial) *)
-Theorem limits_slot_locality_partial : forall v c choke h h' r, slot v c choke h = Ok (h', r) ->
-  Fr (grp_of h (tor_of h c)) h h'.
-Proof. exact ProofsLim.slot_Fr. Qed.
-Print Assumptions limits_slot_locality_partial.
+(* limits for choke_queue::cycle: in every reachable-style state (InvL) a cycle of group g ends with
+     currently_unchoked(g) <= max( min(quota, max_unchoked(g)), slots forced by min_slots in g )
+   where forcedG h g = sum over the group's torrents of min(min_slots, max_slots, connections);
+   it returns exactly the change of the group's counter, and leaves every other group's queue,
+   entries and forced slots, and the global counter, unchanged (CEff). *)
+Theorem limits_cycle : forall d v g quota h h' z, v_dir v = d -> InvL d h -> (g < ng h)%nat ->
+  cycle v g quota h = Ok (h', z) ->
+  InvL d h' /\ CEff g h h' /\
+  q_cu (getq h' g) <= Z.max (Z.of_N (N.min quota (q_max (getq h g)))) (forcedG h' g) /\
+  z = q_cu (getq h' g) - q_cu (getq h g).
+Proof. exact ProofsLim3.cycle_effect. Qed.
+Print Assumptions limits_cycle.
+
+(* limits for ResourceManager::receive_tick (one direction = balance_unchoked), in the accepted sum
+   form: with a global maximum M <> 0, after the tick
+     per group   unchoked_g <= max(max_unchoked_g, forced_g)                       (group_ok)
+     globally    sum_g max(0, unchoked_g - forced_g) <= M                          (excess)
+   where forced_g = slots forced by the per-torrent min_slots of the group's torrents.
+   (replaces tick_within_global_max_refuted; the max() form over the global sum is tick_max_form_refuted) *)
+Theorem limits_tick : forall d v h h', v_dir v = d -> InvL d h -> h_max h <> 0%N -> (h_max h < two32)%N ->
+  balance_unchoked v h = Ok h' ->
+  InvL d h' /\ ng h' = ng h /\ h_max h' = h_max h /\
+  (forall g, (g < ng h')%nat -> group_ok h' g) /\
+  sumZ (map (excess h') (seq 0 (ng h'))) <= Z.of_N (h_max h').
+Proof. exact ProofsLim4.tick_limit. Qed.
+Print Assumptions limits_tick.
 
 Theorem zero_on_close : forall nt0 ng0 ops s, (0 < nt0)%nat -> (0 < ng0)%nat ->
   run (init nt0 ng0) ops = Ok s ->
